@@ -542,3 +542,9 @@ func Run(t *testing.T, x failer, f func()) {
 		Repanic(x, p)
 	}
 }
+
+// Settle lets d of virtual time pass and waits for quiescence (dial retries back off on the clock).
+func Settle(d time.Duration) {
+	time.Sleep(d)
+	synctest.Wait()
+}
